@@ -507,6 +507,9 @@ func (fc *FnCtx) checkRegionInFrame(st *State, reg region, m *Clause) {
 	if reg.base != "" {
 		alts = append(alts, fc.isFresh(reg.base))
 	}
+	if reg.lo != "" && reg.hi != "" {
+		alts = append(alts, fc.leIdx(reg.hi, reg.lo)) // an empty range modifies nothing
+	}
 	for _, r := range fc.frame {
 		if r.key == "*" {
 			return
